@@ -87,6 +87,18 @@ class VwReadingsS:
     latest: str | bytes = ""
     history: tuple[str | bytes, ...] = ()
 
+def _vw_make_local():
+    @dataclasses.dataclass
+    class VwLocP:
+        x: int = 0
+    @dataclasses.dataclass
+    class VwLocH:
+        """classes created inside a function; the member class is met twice (container first)"""
+        a: list[VwLocP] = dataclasses.field(default_factory=list)
+        b: VwLocP = None
+    return VwLocP, VwLocH
+VwLocP, VwLocH = _vw_make_local()
+
 @dataclasses.dataclass
 class VwKids:
     """a recursive class whose back-edge is a subscripted generic that is also used as a root"""
@@ -138,6 +150,7 @@ RAW = [
     ("typing.Union[list[vwx.VwXPayee], vwx.VwXPayee]", False), ("tuple[vwx.VwXSelf, list[vwx.VwXSelf], vwx.VwXOwner]", False), ("vwx.VwXOwner", False),
     ("VwTBC", True), ("VwNC", True), ("VwAC", True), ("list[VwTBC]", False), ("typing.Optional[VwNC]", False), ("dict[str, VwAC]", False), ("VwHook", False),
     ("typing.ClassVar[typing.Callable[[int], str]]", True),
+    ("VwLocH", False), ("list[VwLocH]", False), ("VwLocH", False),
     ("VwKids", False), ("list[VwKids]", False), ("dict[str, VwKids]", False), ("VwKids", False), ("list[VwKids]", False),
     ("VwReadings", False), ("VwReadingsT", False), ("VwReadingsS", False), ("list[VwReadings]", False),
     ("VwTwoDepths", False), ("VwTwoDepthsT", False), ("list[VwScale | None]", False), ("dict[str, VwTwoDepthsT]", False),
@@ -153,6 +166,7 @@ PROBES = [None, 1, "a", "1", {"$f": "1.5"}, True, {"$list": [1, "a", None]}, {"$
           {"$dict": [["v", 1], ["left", {"$dict": [["v", 2], ["left", {"$dict": [["v", 3]]}]]}]]}, {"$dict": [["n", 1], ["parent", {"$dict": [["name", "q"]]}]]},
           {"$dict": [["v", "1"], ["kids", {"$list": [{"$dict": [["v", 2], ["by_name", {"$dict": [["n", {"$dict": [["v", "3"]]}]]}]]}]}]]},
           {"$list": [{"$dict": [["v", "1"], ["kids", {"$list": [{"$dict": [["v", 2]]}]}]]}]}, {"$dict": [["k", {"$dict": [["v", 1], ["kids", {"$list": [{"$dict": []}]}]]}]]},
+          {"$dict": [["a", {"$list": [{"$dict": [["x", "1"]]}]}], ["b", {"$dict": [["x", "2"]]}]]},
           {"$dict": [["factor", "3"]]}, {"$dict": [["history", {"$list": [1, None, "2"]}], ["latest", "3"]]}, {"$dict": [["by_day", {"$dict": [["mo", "a"]]}], ["latest", "b"], ["history", {"$list": ["c"]}]]}, {"$dict": [["one", {"$dict": [["factor", 2]]}], ["many", {"$list": [{"$dict": [["factor", 3]]}, None]}]]}, {"$dict": [["x", 1], ["n", 2]]}, {"$dict": [["a", 5], ["b", "y"]]}, {"$list": [{"$list": [1]}]}, {"$b": "6162"}, {"$set": [1]}]
 
 
